@@ -85,7 +85,11 @@ func amountArg(r *simcore.RNG, regime int) []int64 {
 func (Engine) Generate(r *simcore.RNG, tier string, idx int) *simcore.Plan {
 	p := &simcore.Plan{Config: map[string]int64{}}
 	p.Config["users"] = r.Range(2, 5)
-	p.Config["threshold"] = []int64{0, 1, 1000}[r.Intn(3)]
+	p.Config["threshold"] = []int64{0, 1, 1000}[r.Intn(3)] // spread-reward accumulators of pools with a larger id are scaled by 1e27
+	p.Config["ithreshold"] = p.Config["threshold"]         // the same for the uptime (incentive) accumulators ...
+	if r.Chance(0.5) {
+		p.Config["ithreshold"] = []int64{0, 1, 1000}[r.Intn(3)] // ... or another threshold, as on the live chain
+	}
 	p.Config["uptimes"] = r.Range(1, 3) // how many of the uptime set are authorised
 	p.Config["price"] = r.Range(0, 2)
 	regime := r.Intn(3)
@@ -197,6 +201,7 @@ type refPool struct {
 	spreadAdr sdk.AccAddress
 	incAdr    sdk.AccAddress
 	scaled    bool // spread-reward accumulator scaled by 1e27
+	iscaled   bool // uptime (incentive) accumulators scaled by 1e27
 	// counters for the dust bound
 	ops, crossed int64
 	// dustPrec accumulates, per operation, liquidity * 4e-36 * max(1, 1/sqrtPrice^2): sqrt prices are
@@ -244,8 +249,10 @@ type world struct {
 	seq       int
 	uptimes   []time.Duration
 	threshold uint64
-	okOps     int
-	maxRatio  float64
+	// ithreshold is the pool-id threshold above which uptime accumulators are scaled
+	ithreshold uint64
+	okOps      int
+	maxRatio   float64
 }
 
 func (w *world) sortedPos() []*refPos {
@@ -306,7 +313,7 @@ func (Engine) Execute(run *simcore.Run) {
 		cg.Params.IsPermissionlessPoolCreationEnabled = true
 		cg.Params.AuthorizedUptimes = uptimeSet[:nUp]
 		cg.SpreadFactorPoolIdMigrationThreshold = threshold
-		cg.IncentivesAccumulatorPoolIdMigrationThreshold = threshold
+		cg.IncentivesAccumulatorPoolIdMigrationThreshold = uint64(p.Cfg("ithreshold", p.Cfg("threshold", 0)))
 		gs[cltypes.ModuleName] = cdc.MustMarshalJSON(&cg)
 
 		var pg poolmanagertypes.GenesisState
@@ -336,7 +343,7 @@ func (Engine) Execute(run *simcore.Run) {
 		gs[minttypes.ModuleName] = cdc.MustMarshalJSON(&mg)
 	}})
 	n.Jitter = p.Cfg("jitter", 0) == 1
-	w := &world{run: run, n: n, users: users, pos: map[uint64]*refPos{}, uptimes: uptimeSet[:nUp], threshold: threshold, round: p.Cfg("round", 0) == 1}
+	w := &world{run: run, n: n, users: users, pos: map[uint64]*refPos{}, uptimes: uptimeSet[:nUp], threshold: threshold, ithreshold: uint64(p.Cfg("ithreshold", p.Cfg("threshold", 0))), round: p.Cfg("round", 0) == 1}
 
 	begin := func(dt time.Duration) bool {
 		if pv := n.BeginBlock(dt); pv != nil {
